@@ -130,22 +130,25 @@ pub fn pool_request(v: Version, k: usize) -> Vec<u8> {
 /// Datagrams that must be rejected. The variant rotates with the event's position in the history,
 /// so every variant meets every context across the enumeration:
 ///  0: right length, not a message (count word 3 followed by garbage offsets)
-///  1: over-long (1600 bytes) whose first 1500 bytes are a well-formed classic request
-///  2: over-long (1600 bytes) whose first 1500 bytes are a well-formed IETF request
-///  3: a valid classic request cut to 1020 bytes (below the minimum)
+///  1: an empty datagram; 2: a 7-byte runt
+///  3 / 4: over-long (1600 bytes) whose first 1500 bytes are a well-formed classic / IETF request
+///  5: a valid classic request cut to 1020 bytes (below the minimum)
 pub fn bad_datagram(variant: usize) -> Vec<u8> {
-    match variant % 4 {
+    match variant % 6 {
         0 => {
+            // right length, not a message
             let mut d = vec![0x03, 0, 0, 0, 0xff, 0xff, 0xff, 0xff];
             d.resize(1024, 0x41);
             d
         }
-        1 => {
+        1 => vec![],              // empty datagram
+        2 => b"ROUGHTI".to_vec(), // 7-byte runt
+        3 => {
             let mut d = rtref::responder::classic_request(&nonce(0x9100, 64), 1500);
             d.resize(1600, 0);
             d
         }
-        2 => {
+        4 => {
             let mut d = rtref::responder::ietf_request(&rtref::proto::VER_IETF13, None, &nonce(0x9101, 32), 1500);
             d.resize(1600, 0);
             d
@@ -586,7 +589,7 @@ pub fn run(ctx: &Ctx) -> Result<(), String> {
     ctx.cov("replies_matched", json!(replies.load(Relaxed)));
     ctx.cov("exhaustive", json!(true));
     ctx.cov("bound", json!({"history_depth": depth, "alphabet": al.iter().map(|e| e.name()).collect::<Vec<_>>(), "batch_sizes_histories":[1,2,3], "differential_suffix_len": ctx.tier.pick(3,4), "burst_batch_sizes": ctx.tier.pick(13, 64)}));
-    ctx.cov("rule", json!(format!("all event sequences of length 1..={} over {{C0,C1,I0,I1 (valid classic/IETF request from socket 0/1), X0 (a datagram that must be rejected: garbage of valid length / over-long with a well-formed 1500-byte classic or IETF prefix / valid request cut below the minimum, rotating with the event position), step}} for batch_size 1,2,3, each completed to quiescence on a fresh real in-process Server (stateless enumeration; `states` = distinct canonical end states: per-socket reply counts, batch-size multiset, stats totals). Nonce pool forces byte-identical requests from different sockets, immediate byte-identical retransmissions on one socket, then a different request, then repeats. Oracle: per socket, the received datagrams are exactly one authentic reply (rtref::authentic bound to the exact request bytes) per accepted request sent from that socket, nothing for rejected datagrams, replies come from the server's address, framing matches the request's protocol. Mid-step arrivals: every prefix of <= 2 events + one step during which a request arrives at the polled/collected/sent hook point + every suffix of <= 1 event (a datagram arriving after the socket was seen empty must still be answered). Differential: every suffix of length {} after 3 prefixes vs on a fresh server. Parametric bursts: batch sizes x k in {{b-1,b,b+1,2b,2b+1}} (and 16b, 16b+1, 17b+1, 32b+1 for b <= 8, thorough all b: more than one event-loop call is needed to drain them) x 6 patterns.", depth, ctx.tier.pick(3,4))));
+    ctx.cov("rule", json!(format!("all event sequences of length 1..={} over {{C0,C1,I0,I1 (valid classic/IETF request from socket 0/1), X0 (a datagram that must be rejected: garbage of valid length / over-long with a well-formed 1500-byte classic or IETF prefix / valid request cut below the minimum / empty / 7-byte runt, rotating with the event position), step}} for batch_size 1,2,3, each completed to quiescence on a fresh real in-process Server (stateless enumeration; `states` = distinct canonical end states: per-socket reply counts, batch-size multiset, stats totals). Nonce pool forces byte-identical requests from different sockets, immediate byte-identical retransmissions on one socket, then a different request, then repeats. Oracle: per socket, the received datagrams are exactly one authentic reply (rtref::authentic bound to the exact request bytes) per accepted request sent from that socket, nothing for rejected datagrams, replies come from the server's address, framing matches the request's protocol. Mid-step arrivals: every prefix of <= 2 events + one step during which a request arrives at the polled/collected/sent hook point + every suffix of <= 1 event (a datagram arriving after the socket was seen empty must still be answered). Differential: every suffix of length {} after 3 prefixes vs on a fresh server. Parametric bursts: batch sizes x k in {{b-1,b,b+1,2b,2b+1}} (and 16b, 16b+1, 17b+1, 32b+1 for b <= 8, thorough all b: more than one event-loop call is needed to drain them) x 6 patterns.", depth, ctx.tier.pick(3,4))));
     ctx.sample(json!({"batch_size":2,"events":["C0","C1","I0","step","X0","I1"]}));
     ctx.sample(json!({"kind":"burst","batch_size":64,"k":129,"pattern":"CIX"}));
     ctx.assume("loopback UDP delivery is synchronous with send_to (self-tested)");
